@@ -33,6 +33,7 @@ typedef struct RunOpts {
     const char *planfile;    /* replay */
     bool trace;
     const char *sub;         /* sub-family selector */
+    uint64_t base;           /* first seed of the whole check: enumerating families index their sweep by (seed - base) */
 } RunOpts;
 
 typedef struct Family {
